@@ -13,9 +13,10 @@ import (
 // for everything else).  A go.mod edit can change behaviour without touching a line of Go: a different go-cmp
 // version, or a `replace` that points an external module at a modified copy inside the repository.  Decided on
 // every go.mod of the repository (line syntax; no Go tooling is run):
-//   (1) every `replace` maps a module of the repository itself (github.com/karino2/folang…) to a relative
-//       directory whose go.mod declares exactly that module path — no external module is replaced;
-//   (2) wherever github.com/google/go-cmp is required it is v0.6.0.
+//
+//	(1) every `replace` maps a module of the repository itself (github.com/karino2/folang…) to a relative
+//	    directory whose go.mod declares exactly that module path — no external module is replaced;
+//	(2) wherever github.com/google/go-cmp is required it is v0.6.0.
 type modFile struct {
 	dir      string // relative to the repo root
 	module   string
